@@ -20,9 +20,9 @@ pub const EXTRA_FLAGS: [&str; 1] = ["three_or_more_nodes"];
 
 pub fn plan(quick: bool) -> Vec<Part> {
     let mut v = vec![];
-    let (l4, p4) = if quick { (8, 5) } else { (10, 6) };
-    let l5 = if quick { 8 } else { 10 };
-    let l6 = if quick { 8 } else { 10 };
+    let (l4, p4) = if quick { (7, 5) } else { (10, 6) };
+    let l5 = if quick { 7 } else { 10 };
+    let l6 = if quick { 7 } else { 10 };
     v.push(Part::new("C19", "R1+RT", 4, Space::singles(4, l4).plus(Space::thresholds(4, l4 - 1))));
     v.push(Part::new("C19", "R2", 4, if quick { Space { segs: vec![Seg::Pair(4, 4), Seg::Pair(5, 4)] } } else { Space::pairs(4, p4) }));
     v.push(Part::new("C19", "R1", 5, Space::singles(5, l5)));
